@@ -175,6 +175,9 @@ func runC14(c *Ctx) {
 		if len(sw.Files) >= 2 && r.Fork(0x726f6f74).Chance(1, 4) {
 			sw.Reroot([]string{"rootA", "rootB"})
 			c.Count("multi_root_workspaces", 1)
+		} else if len(sw.Files) >= 2 && r.Fork(0x73707264).Chance(1, 4) {
+			sw.Spread()
+			c.Count("workspaces_with_same_named_sub_directories", 1)
 		}
 		c.Eval(1)
 		ws, srv, err := startScopeServer(c, sw, fmt.Sprintf("c14w%d", wi))
@@ -192,6 +195,7 @@ func runC14(c *Ctx) {
 			}
 		}
 		for _, f := range sw.Files {
+			lazyOpen(srv, ws, sw, f)
 			sites := c14Sites(f)
 			if len(sites) == 0 {
 				continue
